@@ -122,10 +122,16 @@ def snap(mdib, with_index_check: bool = True) -> dict:
         'sizes': (len(mdib.descriptions.objects), len(mdib.states.objects), len(mdib.context_states.objects)),
     }
     for st in mdib.states.objects:
+        if st is None:
+            s['dup'].append(('none_object_in_states', None))
+            continue
         if st.DescriptorHandle in s['states']:
             s['dup'].append(('state', st.DescriptorHandle))
         s['states'][st.DescriptorHandle] = canon(st)
     for st in mdib.context_states.objects:
+        if st is None:
+            s['dup'].append(('none_object_in_context_states', None))
+            continue
         if st.Handle in s['ctx']:
             s['dup'].append(('ctx', st.Handle))
         s['ctx'][st.Handle] = canon(st)
